@@ -170,6 +170,11 @@ ScopeShapes(body) ==
       <<For(EV(Id("l")), "x", "y", "", <<Elem("v", <<>>, body)>>), Elem("after", <<>>, body)>>,
       <<Elem("before", <<>>, body), For(EV(Id("l")), "x", "y", "", <<>>), Elem("after", <<>>, body)>>,
       <<For(EV(Arr(<<Item(Id("x")), Item(Id("item"))>>)), "x", "item", "", body)>>,
+      (* a <slot> element carrying a slot value itself (a forwarding slot), followed by siblings *)
+      <<Elem("dyn-c", <<Attr("plain", "sv-x", SV("Sx"))>>,
+             <<SlotEl(SV("inner"), <<Attr("slot:", "x", None)>>),
+               For(EV(Id("l")), "item", "index", "", body),
+               Elem("after", <<>>, body)>>)>>,
       (* a scope-introducing element WITHOUT children, followed by another one under other names: nothing of the first may
          stay behind (in the parser's scope stack, or in the printer's) *)
       <<For(EV(Id("l")), "x", "y", "", <<>>), For(EV(Id("l2")), "item", "index", "", body)>>,
